@@ -12,7 +12,8 @@ EXPLANATION = (
     "Python ints into float64. Today's tree has 8 genuine violations of R1-R3 (listed in known_findings.json with failing inputs); any other node or kernel is still reported."
     " Added after the third round of seeded changes: R5 the machine carrier is int64/uint64; R6 the exact integer route is not left for any reason other than method='repr', scaling or n_frac None; operators pass op_method (C08.R4); _init_size relation for n_int == 0 (C06.R1); constructor state (C20.R2)."
     ' Added after the fourth round of seeded changes: the store pipeline has nothing (no clamp in value units) between the input and the scaling (C01.R2); C20.R8 objects carry only the documented attributes and no function writes module-level containers (no caches / memos that go stale) (a memo of alignment factors keyed by the shift alone returns an unpromoted factor).'
-    ' Added after the fifth round of seeded changes: resize re-stores after every size write, so a widened word moves to the Python-int carrier (C10.R2); C20.R8 also forbids mutable default arguments and private attributes hung on operands (x._cache, x.__dict__[...]) (a cached Python-int copy of the codes goes stale after indexed stores).')
+    ' Added after the fifth round of seeded changes: resize re-stores after every size write, so a widened word moves to the Python-int carrier (C10.R2); C20.R8 also forbids mutable default arguments and private attributes hung on operands (x._cache, x.__dict__[...]) (a cached Python-int copy of the codes goes stale after indexed stores).'
+    ' Added after the sixth round of seeded changes: R7 the two sides of a combining node are on one carrier: unless the guards bound every operand word to 63 bits or both sides are Python ints on the path, a word below 64 bits meets a word of 64 bits or more as np.int64 (+) Python int, which raises OverflowError for scalars (genuine defect G12, repaired by /repo d03d948; the reverse patch is reported).')
 ASSUMPTIONS = ["NumPy >= 2 promotion: int64 (+) uint64 -> float64; array (+) Python int keeps the array dtype; object arrays hold exact Python ints",
                "optimal sizing (C07.R1) gives n_frac = max(x.n_frac, y.n_frac) for +,- and x.n_frac + y.n_frac for *"]
 TRUSTED = ["CPython ast", "fxlint ordering procedure", "NumPy promotion lemma"]
